@@ -1,9 +1,10 @@
 (* C16, the implementation printer annotateast.TypeConvertStr:
    - abs (embed_one t) = t: the expected implementation tree denotes the documented type (abs forgets only
      singleton MultiTypes);
-   - on types without fun types, string constants and unions directly inside unions, TypeConvertStr prints exactly
-     the canonical text (array items that are unions / arrays keep their parentheses: needParenInArray), hence
-     reading the printed text gives the same type. *)
+   - TypeConvertStr with the repairs `fx` (Model/AnnPrint.v) prints exactly the canonical text `show_bare true` on
+     every documented type that avoids the forms whose repair is missing in `fx` (`pguard fx`): fun types when
+     fx_fun = false, string constants when fx_const = false, a union directly inside a union when fx_union = false;
+     hence reading the printed text gives the same type.  With all repairs the guard is `doc_type` alone. *)
 From Coq Require Import String Ascii List Arith NArith Bool Lia.
 From LH Require Import Base.Bytes Base.Res Model.AnnLexer Model.AnnAst Model.AnnParser Model.AnnPrint
   Spec.AnnGrammar Proofs.AnnLexFacts Proofs.AnnRoundtrip.
@@ -90,7 +91,7 @@ Proof. exact (abs_embed_one_gen true). Qed.
 Theorem abs_embed_one_plain : forall t, doc_type t = true -> abs (embed_type_plain t) = t.
 Proof. exact (abs_embed_one_gen false). Qed.
 
-(* ------------------------------------------------------------------ TypeConvertStr = show on the guarded fragment *)
+(* ------------------------------------------------------------------ TypeConvertStr = show under the guard of the missing repairs *)
 Fixpoint asize (a : atype) : nat :=
   match a with
   | AMulti ts => S (list_sum (map asize ts))
@@ -102,22 +103,13 @@ Fixpoint asize (a : atype) : nat :=
 Lemma asize_pos a : 1 <= asize a.
 Proof. destruct a; cbn; lia. Qed.
 
-(* guard of C16_impl_printer_partial, on the documented type the tree denotes *)
-Definition printer_ok (d : dtype) : bool :=
-  doc_type d && negb (has_fun d) && negb (has_const d) && negb (has_union_in_union d).
-Definition printer_guard (a : atype) : bool := printer_ok (abs a).
-
-Lemma printer_ok_inv d : printer_ok d = true ->
-  doc_type d = true /\ has_fun d = false /\ has_const d = false /\ has_union_in_union d = false.
-Proof.
-  unfold printer_ok. intros H.
-  repeat (apply andb_true_iff in H as [H ?]).
-  repeat match goal with X : negb _ = true |- _ => apply negb_true_iff in X end. auto.
-Qed.
-Lemma printer_ok_intro d :
-  doc_type d = true -> has_fun d = false -> has_const d = false ->
-  has_union_in_union d = false -> printer_ok d = true.
-Proof. unfold printer_ok. intros -> -> -> ->. reflexivity. Qed.
+(* guard of the printer theorems, on the documented type the tree denotes: documented, and none of the forms whose
+   repair is missing *)
+Definition pguard (fx : ann_fixes) (d : dtype) : bool :=
+  doc_type d && (fx_fun fx || negb (has_fun d)) && (fx_const fx || negb (has_const d)) &&
+  (fx_union fx || negb (has_union_in_union d)).
+(* the code as it is *)
+Definition printer_guard (a : atype) : bool := pguard deployed (abs a).
 
 Lemma shw_nonempty d : doc_type d = true -> shw d <> [].
 Proof.
@@ -164,11 +156,16 @@ Proof.
   rewrite fold_tcs_acc; [|discriminate|exact HF']. apply (join_as_concat s_bar).
 Qed.
 
-Lemma tcs_multi ts :
-  type_convert_str (AMulti ts) = fold_left tcs_step (map type_convert_str ts) [].
+Lemma join_sep_eq sep l : join_sep sep l = join sep l.
+Proof. induction l as [|x l IH]; [reflexivity|]. cbn [join_sep join]. rewrite IH. reflexivity. Qed.
+
+Lemma in_parens_eq b s : in_parens b s = paren b s.
+Proof. reflexivity. Qed.
+
+Lemma existsb_false_in' {A} (p : A -> bool) l x : existsb p l = false -> In x l -> p x = false.
 Proof.
-  cbn [type_convert_str]. generalize (@nil N). induction ts as [|x ts IH]; intros acc; cbn [fold_left map]; [reflexivity|].
-  rewrite IH. reflexivity.
+  intros H Hin. destruct (p x) eqn:E; [|reflexivity].
+  assert (existsb p l = true) by (apply existsb_exists; eauto). congruence.
 Qed.
 
 (* needParenInArray decides exactly what the canonical printer parenthesises under [] *)
@@ -183,80 +180,226 @@ Proof.
   - reflexivity.
 Qed.
 
-Lemma tcs_show : forall n a, asize a <= n -> printer_guard a = true -> type_convert_str a = shw (abs a).
+(* isFuncType / isUnionType decide what the canonical printer parenthesises in a union and in a list *)
+Lemma is_fun_type_abs : forall n a, asize a <= n -> is_fun_type a = is_fun (abs a).
+Proof.
+  induction n as [|n IH]; intros a Hs; [pose proof (asize_pos a); lia|].
+  destruct a as [nm c|ts|i| |k v|ps rs|nm q c]; try reflexivity.
+  destruct ts as [|x [|y ts]]; try reflexivity.
+  cbn [abs is_fun_type]. apply IH. cbn in Hs. lia.
+Qed.
+
+Lemma is_union_type_abs : forall n a, asize a <= n -> doc_type (abs a) = true ->
+  is_union_type a = is_union (abs a).
+Proof.
+  induction n as [|n IH]; intros a Hs Hd; [pose proof (asize_pos a); lia|].
+  destruct a as [nm c|ts|i| |k v|ps rs|nm q c]; try reflexivity.
+  destruct ts as [|x [|y ts]].
+  - discriminate Hd.
+  - cbn [abs is_union_type] in *. apply IH; [cbn in Hs; lia|exact Hd].
+  - reflexivity.
+Qed.
+
+(* the parameter type the tree denotes: none for the default the parser supplies *)
+Definition abs_param_type (t : atype) : option dtype :=
+  match t with
+  | ANormal s false => if beq_bytes s [97; 110; 121]%N then None else Some (abs t)
+  | _ => Some (abs t)
+  end.
+Lemma abs_param_type_default t :
+  abs_param_type t = if is_default_param_type t then None else Some (abs t).
+Proof. destruct t as [nm [|]|ts|i| |k v|ps rs|nm q c]; reflexivity. Qed.
+
+Lemma abs_fun ps rs :
+  abs (AFun ps rs) =
+  DFun (map (fun p : bytes * bool * atype => (fst (fst p), snd (fst p), abs_param_type (snd p))) ps) (map abs rs).
+Proof.
+  cbn [abs]. f_equal. apply map_ext. intros [[n o] t]. reflexivity.
+Qed.
+
+Section Printer.
+Variable fx : ann_fixes.
+Notation tcs := (type_convert_str_fx fx).
+
+(* the guard as a conjunction, and its heredity *)
+Definition G (d : dtype) : Prop :=
+  doc_type d = true /\ (fx_fun fx = false -> has_fun d = false) /\
+  (fx_const fx = false -> has_const d = false) /\ (fx_union fx = false -> has_union_in_union d = false).
+
+Lemma pguard_G d : pguard fx d = true -> G d.
+Proof.
+  unfold pguard, G. intros H. repeat (apply andb_true_iff in H as [H ?]).
+  repeat match goal with X : _ || _ = true |- _ => apply orb_true_iff in X end.
+  repeat split; auto; intros E;
+    match goal with X : _ \/ _ |- _ => destruct X as [X|X]; [congruence|apply negb_true_iff in X; exact X] end.
+Qed.
+
+Lemma G_doc d : G d -> doc_type d = true.
+Proof. intros [H _]. exact H. Qed.
+
+Lemma G_array i : G (DArray i) -> G i.
+Proof. unfold G. cbn [doc_type has_fun has_const has_union_in_union]. tauto. Qed.
+
+Lemma G_table k v : G (DTable k v) -> G k /\ G v.
+Proof.
+  unfold G. cbn [doc_type has_fun has_const has_union_in_union]. intros (Hd & Hf & Hc & Hu).
+  apply andb_true_iff in Hd as [Hd1 Hd2].
+  repeat split; auto; intros E;
+    [ specialize (Hf E) | specialize (Hc E) | specialize (Hu E)
+    | specialize (Hf E) | specialize (Hc E) | specialize (Hu E) ];
+    match goal with X : _ || _ = false |- _ => apply orb_false_iff in X as [? ?]; assumption end.
+Qed.
+
+Lemma G_union ts m : G (DUnion ts) -> In m ts -> G m /\ (fx_union fx = false -> is_union m = false).
+Proof.
+  unfold G. cbn [doc_type has_fun has_const has_union_in_union]. intros (Hd & Hf & Hc & Hu) Hin.
+  apply andb_true_iff in Hd as [_ Hd]. rewrite forallb_forall in Hd.
+  repeat split; auto; intros E.
+  - exact (existsb_false_in' _ _ _ (Hf E) Hin).
+  - exact (existsb_false_in' _ _ _ (Hc E) Hin).
+  - specialize (Hu E). apply orb_false_iff in Hu as [_ Hu]. exact (existsb_false_in' _ _ _ Hu Hin).
+  - specialize (Hu E). apply orb_false_iff in Hu as [Hu _]. exact (existsb_false_in' _ _ _ Hu Hin).
+Qed.
+
+Lemma G_fun ps rs : G (DFun ps rs) ->
+  fx_fun fx = true /\
+  (forall n o t, In (n, o, Some t) ps -> G t) /\ (forall r, In r rs -> G r).
+Proof.
+  unfold G. cbn [doc_type has_fun has_const has_union_in_union]. intros (Hd & Hf & Hc & Hu).
+  assert (Hfx : fx_fun fx = true) by (destruct (fx_fun fx); [reflexivity|discriminate (Hf eq_refl)]).
+  apply andb_true_iff in Hd as [Hdp Hdr]. rewrite forallb_forall in Hdp, Hdr.
+  split; [exact Hfx|]. split.
+  - intros n o t Hin. pose proof (Hdp _ Hin) as Hp. cbn [doc_param] in Hp. apply andb_true_iff in Hp as [_ Hp].
+    repeat split; auto; intros E; try congruence.
+    + specialize (Hc E). apply orb_false_iff in Hc as [Hc _]. exact (existsb_false_in' _ _ _ Hc Hin).
+    + specialize (Hu E). apply orb_false_iff in Hu as [Hu _]. exact (existsb_false_in' _ _ _ Hu Hin).
+  - intros r Hin. repeat split; auto; intros E; try congruence.
+    + specialize (Hc E). apply orb_false_iff in Hc as [_ Hc]. exact (existsb_false_in' _ _ _ Hc Hin).
+    + specialize (Hu E). apply orb_false_iff in Hu as [_ Hu]. exact (existsb_false_in' _ _ _ Hu Hin).
+Qed.
+
+(* a fun type is parenthesised by the repaired printer exactly where the canonical one does; without the repair
+   the guard excludes fun types *)
+Lemma fun_paren_ok a : G (abs a) -> fx_fun fx && is_fun_type a = is_fun (abs a).
+Proof.
+  intros (_ & Hf & _). rewrite (is_fun_type_abs (asize a) a (le_n _)).
+  destruct (fx_fun fx); [reflexivity|]. specialize (Hf eq_refl).
+  destruct (abs a); try reflexivity. discriminate Hf.
+Qed.
+
+(* the members of a MultiType, as TypeConvertStr adds them *)
+Definition member_str (many : bool) (one : atype) : bytes :=
+  let s := tcs one in
+  if is_nil s then []
+  else in_parens (many && ((fx_fun fx && is_fun_type one) || (fx_union fx && is_union_type one))) s.
+
+Lemma tcs_multi ts :
+  tcs (AMulti ts) = fold_left tcs_step (map (member_str (Nat.ltb 1 (length ts))) ts) [].
+Proof.
+  cbn [type_convert_str_fx]. generalize (Nat.ltb 1 (length ts)). intros many.
+  generalize (@nil N). induction ts as [|x ts IH]; intros acc; cbn [fold_left map]; [reflexivity|].
+  rewrite <- IH. f_equal. unfold member_str, tcs_step.
+  destruct (tcs x) as [|c r]; [reflexivity|]. cbn [is_nil].
+  destruct (many && _); reflexivity.
+Qed.
+
+Lemma tcs_show : forall n a, asize a <= n -> G (abs a) -> tcs a = shw (abs a).
 Proof.
   induction n as [|n IH]; intros a Hs Hg; [pose proof (asize_pos a); lia|].
-  unfold printer_guard in Hg.
   destruct a as [nm c|ts|i| |k v|ps rs|nm q c].
   - reflexivity.
   - (* MultiType *)
     destruct ts as [|x [|y ts]].
-    + cbn [abs] in Hg. apply printer_ok_inv in Hg as (Hd & _). discriminate Hd.
-    + cbn [abs] in Hg |- *. rewrite tcs_multi. cbn [map fold_left]. unfold tcs_step.
+    + cbn [abs] in Hg. apply G_doc in Hg. discriminate Hg.
+    + cbn [abs] in Hg |- *. rewrite tcs_multi. cbn [map fold_left length]. unfold tcs_step, member_str.
       assert (Hx : asize x <= n) by (cbn in Hs; lia).
-      rewrite (IH x Hx Hg). destruct (shw (abs x)); reflexivity.
+      rewrite (IH x Hx Hg). cbn [Nat.ltb Nat.leb andb in_parens].
+      destruct (shw (abs x)); reflexivity.
     + set (l := x :: y :: ts) in *.
       assert (Habs : abs (AMulti l) = DUnion (map abs l)) by reflexivity.
-      rewrite Habs in Hg |- *. apply printer_ok_inv in Hg as (Hd & Hf & Hc & Hu).
-      cbn [doc_type has_fun has_const has_union_in_union] in Hd, Hf, Hc, Hu.
-      apply andb_true_iff in Hd as [_ Hdt]. apply orb_false_iff in Hu as [Hu1 Hu2].
-      assert (Hmem : forall z, In z l -> printer_ok (abs z) = true /\ member_paren (abs z) = false).
-      { intros z Hin. pose proof (in_map abs _ _ Hin) as Hin'.
-        rewrite forallb_forall in Hdt.
-        assert (E1 : has_fun (abs z) = false).
-        { destruct (has_fun (abs z)) eqn:E; [|reflexivity].
-          assert (existsb has_fun (map abs l) = true) by (apply existsb_exists; eauto). congruence. }
-        assert (E2 : has_const (abs z) = false).
-        { destruct (has_const (abs z)) eqn:E; [|reflexivity].
-          assert (existsb has_const (map abs l) = true) by (apply existsb_exists; eauto). congruence. }
-        assert (E4 : has_union_in_union (abs z) = false).
-        { destruct (has_union_in_union (abs z)) eqn:E; [|reflexivity].
-          assert (existsb has_union_in_union (map abs l) = true) by (apply existsb_exists; eauto). congruence. }
-        assert (E5 : is_union (abs z) = false).
-        { destruct (is_union (abs z)) eqn:E; [|reflexivity].
-          assert (existsb is_union (map abs l) = true) by (apply existsb_exists; eauto). congruence. }
-        split; [apply printer_ok_intro; auto|].
-        unfold member_paren. rewrite E5. destruct (abs z); try reflexivity. discriminate E1. }
+      rewrite Habs in Hg |- *.
       rewrite tcs_multi. cbn [show_bare]. rewrite map_map.
-      assert (Hmap : map type_convert_str l = map (fun z => paren (member_paren (abs z)) (shw (abs z))) l).
-      { apply map_ext_in. intros z Hin. destruct (Hmem z Hin) as [Hok Hmp]. rewrite Hmp. cbn [paren].
+      assert (Hmany : Nat.ltb 1 (length l) = true) by reflexivity. rewrite Hmany.
+      assert (Hmap : map (member_str true) l = map (fun z => paren (member_paren (abs z)) (shw (abs z))) l).
+      { apply map_ext_in. intros z Hin.
+        destruct (G_union _ (abs z) Hg (in_map abs _ _ Hin)) as [Gz Huz].
         pose proof (list_sum_in asize _ _ Hin) as Hsz. cbn [asize] in Hs.
-        assert (Hsz' : asize z <= n) by (clear - Hs Hsz; lia). exact (IH z Hsz' Hok). }
+        assert (Hsz' : asize z <= n) by (clear - Hs Hsz; lia).
+        unfold member_str. rewrite (IH z Hsz' Gz).
+        destruct (shw (abs z)) as [|c0 r0] eqn:Es; [exfalso; exact (shw_nonempty _ (G_doc _ Gz) Es)|].
+        cbn [is_nil andb]. rewrite (fun_paren_ok z Gz).
+        rewrite (is_union_type_abs (asize z) z (le_n _) (G_doc _ Gz)).
+        assert (Hu : fx_union fx && is_union (abs z) = is_union (abs z)).
+        { destruct (fx_union fx); [reflexivity|]. rewrite (Huz eq_refl). reflexivity. }
+        rewrite Hu. unfold member_paren. rewrite orb_comm. reflexivity. }
       rewrite Hmap. apply fold_tcs_join. apply Forall_forall. intros s Hin.
-      apply in_map_iff in Hin as (z & <- & Hin). destruct (Hmem z Hin) as [Hok Hmp]. rewrite Hmp. cbn [paren].
-      apply printer_ok_inv in Hok as (D1 & _). apply shw_nonempty; assumption.
+      apply in_map_iff in Hin as (z & <- & Hin).
+      destruct (G_union _ (abs z) Hg (in_map abs _ _ Hin)) as [Gz _].
+      pose proof (shw_nonempty _ (G_doc _ Gz)) as Hne.
+      destruct (member_paren (abs z)); cbn [paren]; [discriminate|exact Hne].
   - (* ArrayType *)
-    cbn [abs] in Hg |- *. apply printer_ok_inv in Hg as (Hd & Hf & Hc & Hu).
-    cbn [doc_type has_fun has_const has_union_in_union] in Hd, Hf, Hc, Hu.
-    cbn [show_bare type_convert_str].
+    cbn [abs] in Hg |- *. apply G_array in Hg.
+    cbn [show_bare type_convert_str_fx].
     cbn [asize] in Hs. assert (Hsi : asize i <= n) by (clear - Hs; lia).
-    rewrite (need_paren_abs n i Hsi Hd).
-    rewrite (IH i Hsi (printer_ok_intro _ Hd Hf Hc Hu)).
+    rewrite (need_paren_abs n i Hsi (G_doc _ Hg)).
+    rewrite (IH i Hsi Hg).
     destruct (item_paren true (abs i)); reflexivity.
   - reflexivity.
   - (* TableType *)
-    cbn [abs] in Hg |- *. apply printer_ok_inv in Hg as (Hd & Hf & Hc & Hu).
-    cbn [doc_type has_fun has_const has_union_in_union] in Hd, Hf, Hc, Hu.
-    apply andb_true_iff in Hd as [Hd1 Hd2]. apply orb_false_iff in Hf as [Hf1 Hf2].
-    apply orb_false_iff in Hc as [Hc1 Hc2].
-    apply orb_false_iff in Hu as [Hu1 Hu2].
-    cbn [show_bare type_convert_str]. cbn [asize] in Hs.
+    cbn [abs] in Hg |- *. apply G_table in Hg as [Gk Gv].
+    cbn [show_bare type_convert_str_fx]. cbn [asize] in Hs.
     assert (Hsk : asize k <= n) by (clear - Hs; lia). assert (Hsv : asize v <= n) by (clear - Hs; lia).
-    rewrite (IH k Hsk (printer_ok_intro _ Hd1 Hf1 Hc1 Hu1)).
-    rewrite (IH v Hsv (printer_ok_intro _ Hd2 Hf2 Hc2 Hu2)).
-    assert (Sk : sub_paren (abs k) = false) by (unfold sub_paren; destruct (abs k); try reflexivity; discriminate Hf1).
-    assert (Sv : sub_paren (abs v) = false) by (unfold sub_paren; destruct (abs v); try reflexivity; discriminate Hf2).
-    rewrite Sk, Sv. reflexivity.
-  - cbn [abs] in Hg. apply printer_ok_inv in Hg as (_ & Hf & _). discriminate Hf.
-  - cbn [abs] in Hg. apply printer_ok_inv in Hg as (_ & _ & Hc & _). discriminate Hc.
+    rewrite (IH k Hsk Gk), (IH v Hsv Gv).
+    rewrite (fun_paren_ok k Gk), (fun_paren_ok v Gv). reflexivity.
+  - (* FuncType: only with the repair *)
+    rewrite abs_fun in Hg |- *. destruct (G_fun _ _ Hg) as (Hfx & Gp & Gr).
+    cbn [type_convert_str_fx]. rewrite Hfx. cbn [show_bare]. rewrite !join_sep_eq, !map_map.
+    cbn [asize] in Hs.
+    f_equal. f_equal; [|f_equal].
+    + f_equal. apply map_ext_in. intros [[pn po] pt] Hin. cbn [fst snd].
+      rewrite abs_param_type_default. destruct (is_default_param_type pt) eqn:Edef; [reflexivity|].
+      assert (Gt : G (abs pt)).
+      { apply (Gp pn po). apply in_map_iff. exists (pn, po, pt). cbn [fst snd].
+        rewrite abs_param_type_default, Edef. split; [reflexivity|exact Hin]. }
+      pose proof (list_sum_in (fun p : bytes * bool * atype => asize (snd p)) _ _ Hin) as Hsz. cbn [snd] in Hsz.
+      assert (Hsz' : asize pt <= n) by (clear - Hs Hsz; lia).
+      rewrite (IH pt Hsz' Gt). rewrite (is_fun_type_abs (asize pt) pt (le_n _)). reflexivity.
+    + assert (Hnil : is_nil (map abs rs) = is_nil rs) by (destruct rs; reflexivity). rewrite Hnil.
+      destruct (is_nil rs); [reflexivity|]. rewrite ?join_sep_eq. f_equal. f_equal. apply map_ext_in. intros r Hin.
+      assert (Gt : G (abs r)) by (apply Gr; apply in_map; exact Hin).
+      pose proof (list_sum_in asize _ _ Hin) as Hsz.
+      assert (Hsz' : asize r <= n) by (clear - Hs Hsz; lia).
+      rewrite (IH r Hsz' Gt). rewrite (is_fun_type_abs (asize r) r (le_n _)). reflexivity.
+  - (* ConstType: only with the repair *)
+    destruct Hg as (_ & _ & Hc & _). cbn [abs has_const] in Hc.
+    assert (Hfx : fx_const fx = true) by (destruct (fx_const fx); [reflexivity|discriminate (Hc eq_refl)]).
+    cbn [abs show_bare type_convert_str_fx]. rewrite Hfx. unfold show_const. destruct q; [|reflexivity].
+    cbn [app]. rewrite <- app_assoc. reflexivity.
 Qed.
 
-(* C16_impl_printer_partial *)
-Theorem impl_printer_partial : forall a, printer_guard a = true ->
-  exists a', parse_type (fuel_of (type_convert_str a)) (type_convert_str a) = Ok (inl (a', [])) /\ abs a' = abs a.
+(* print, then read: the same documented type *)
+Theorem impl_printer_fx : forall a, pguard fx (abs a) = true ->
+  exists a', parse_type (fuel_of (tcs a)) (tcs a) = Ok (inl (a', [])) /\ abs a' = abs a.
 Proof.
-  intros a Hg. pose proof (tcs_show (asize a) a (le_n _) Hg) as Ht.
-  unfold printer_guard in Hg. apply printer_ok_inv in Hg as (Hd & _).
-  exists (embed_type (abs a)). split; [|apply abs_embed_one; exact Hd].
-  rewrite Ht. apply (type_roundtrip (abs a) Hd).
+  intros a Hg. apply pguard_G in Hg. pose proof (tcs_show (asize a) a (le_n _) Hg) as Ht.
+  exists (embed_type (abs a)). split; [|apply abs_embed_one; exact (G_doc _ Hg)].
+  rewrite Ht. apply (type_roundtrip (abs a) (G_doc _ Hg)).
 Qed.
+End Printer.
+
+(* with all repairs: every documented type (C16_impl_printer_full for the repaired printer) *)
+Lemma pguard_all d : doc_type d = true -> pguard all_fixes d = true.
+Proof. intros H. unfold pguard. rewrite H. reflexivity. Qed.
+
+Theorem impl_printer_full_all_fixes : forall a, doc_type (abs a) = true ->
+  exists a', parse_type (fuel_of (type_convert_str_fx all_fixes a)) (type_convert_str_fx all_fixes a)
+             = Ok (inl (a', [])) /\ abs a' = abs a.
+Proof. intros a Hd. apply impl_printer_fx. apply pguard_all. exact Hd. Qed.
+
+(* the code as it is: every documented type without a fun type *)
+Lemma pguard_deployed d : doc_type d = true -> has_fun d = false -> pguard deployed d = true.
+Proof. intros H1 H2. unfold pguard. rewrite H1, H2. reflexivity. Qed.
+
+Theorem impl_printer_partial : forall a, doc_type (abs a) = true -> has_fun (abs a) = false ->
+  exists a', parse_type (fuel_of (type_convert_str a)) (type_convert_str a) = Ok (inl (a', [])) /\ abs a' = abs a.
+Proof. intros a Hd Hf. apply (impl_printer_fx deployed). apply pguard_deployed; assumption. Qed.
